@@ -1835,14 +1835,29 @@ obligations even when no sampled input or schedule shows a difference; the check
 a failing input. -/
 theorem c14_shape_ServiceProcessor_ProcessClientRequest :
     Shapes.processor_ServiceProcessor_ProcessClientRequest =
-   ["server.Suite", "network.DefaultConstructors", "protobuf.DecodeWithConstructors",
-     "callInterfaceFunc", "protobuf.Encode"] := rfl
+   ["assign:mh,ok:=p.handlers[path]", "if:mh.streaming",
+     "return:nil,nil,xerrors.Errorf((\"\"+\"\"))", "if:!ok",
+     "assign:err:=xerrors.New((\"\"+path))", "return:nil,nil,err",
+     "assign:msg:=reflect.New().Interface()", "server.Suite", "network.DefaultConstructors",
+     "protobuf.DecodeWithConstructors",
+     "assign:err:=protobuf.DecodeWithConstructors(buf,msg,network.DefaultConstructors(p.Context.server.Suite()))",
+     "if:(err!=nil)", "return:nil,nil,xerrors.Errorf(\"\",err)",
+     "return:callInterfaceFunc(mh.handler,msg,mh.streaming)", "assign:reply,_,err:=func()",
+     "if:(err!=nil)", "return:nil,nil,err", "protobuf.Encode",
+     "assign:buf,err=protobuf.Encode(reply)", "if:(err!=nil)",
+     "return:nil,nil,xerrors.Errorf(\"\",err)", "return:buf,nil,nil"] := rfl
 
 theorem c14_shape_callInterfaceFunc :
     Shapes.processor_callInterfaceFunc =
-   ["defer{", "if:(r!=nil)", "}", "arg.Elem", "Elem().Set", "f.Call", "if:streaming",
-     "ret[].Interface", "if:(ierr!=nil)", "return:", "ret[].Interface", "ret[].Interface",
-     "return:", "ret[].Interface", "if:(ierr!=nil)", "return:", "ret[].Interface", "return:"] := rfl
+   ["defer{", "assign:r:=recover()", "if:(r!=nil)", "assign:err=xerrors.Errorf(\"\",r)", "}",
+     "assign:to:=reflect.TypeOf().In(0)", "assign:f:=reflect.ValueOf(handler)",
+     "assign:arg:=reflect.New(to.Elem())", "arg.Elem", "Elem().Set", "f.Call",
+     "assign:ret:=f.Call(conv{arg})", "if:streaming", "ret[].Interface",
+     "assign:ierr:=ret[].Interface()", "if:(ierr!=nil)", "assign:err=xerrors.Errorf(\"\",ierr)",
+     "return:", "ret[].Interface", "assign:intf=ret[].Interface()", "ret[].Interface",
+     "assign:ch=ret[].Interface().(conv)", "return:", "ret[].Interface",
+     "assign:ierr:=ret[].Interface()", "if:(ierr!=nil)", "assign:err=xerrors.Errorf(\"\",ierr)",
+     "return:", "ret[].Interface", "assign:intf=ret[].Interface()", "return:"] := rfl
 
 theorem c14_shape_ServiceProcessor_RegisterRESTHandler :
     Shapes.processor_ServiceProcessor_RegisterRESTHandler =
@@ -1861,16 +1876,37 @@ theorem c14_shape_ServiceProcessor_RegisterRESTHandler :
 
 theorem c14_shape_wsHandler_ServeHTTP :
     Shapes.websocket_wsHandler_ServeHTTP =
-   ["defer{", "}", "u.Upgrade", "defer:ws.Close", "ws.ReadMessage",
-     "bidirectionalStreamer.IsStreaming", "s.ProcessClientRequest", "time.Now", "Now().Add",
-     "ws.SetWriteDeadline", "ws.WriteMessage", "send:clientInputs",
-     "bidirectionalStreamer.ProcessClientStreamRequest", "go{", "defer:close:clientInputs",
-     "defer:verifC15Point", "ws.ReadMessage", "close:closing", "verifC15Point",
-     "send:clientInputs", "recv:leaving", "}", "recv:closing", "recv:outChan",
+   ["assign:rx:=0", "assign:tx:=0", "assign:n:=0", "defer{", "}", "return:true",
+     "assign:u:=websocket.Upgrader{EnableCompression:false,CheckOrigin:func}", "u.Upgrade",
+     "assign:ws,err:=u.Upgrade(w,r,http.Header{})", "if:(err!=nil)", "return:", "defer:ws.Close",
+     "for:(err==nil){", "ws.ReadMessage", "assign:mt,buf,rerr:=ws.ReadMessage()",
+     "if:(rerr!=nil)", "assign:err=rerr", "break", "assign:rx+=len(buf)", "assign:n++",
+     "assign:s:=t.service",
+     "assign:path:=strings.TrimPrefix(r.URL.Path,((\"\"+t.serviceName)+\"\"))",
+     "assign:isStreaming:=false", "assign:bidirectionalStreamer,ok:=s.(BidirectionalStreamer)",
+     "if:ok", "bidirectionalStreamer.IsStreaming",
+     "assign:isStreaming,err=bidirectionalStreamer.IsStreaming(path)", "if:(err!=nil)",
+     "continue", "if:!isStreaming", "s.ProcessClientRequest",
+     "assign:reply,_,err=s.ProcessClientRequest(r,path,buf)", "if:(err!=nil)", "continue",
+     "assign:tx+=len(reply)", "time.Now", "Now().Add", "ws.SetWriteDeadline",
+     "assign:err=ws.SetWriteDeadline(time.Now().Add((5*time.Minute)))", "if:(err!=nil)", "break",
+     "ws.WriteMessage", "assign:err=ws.WriteMessage(mt,reply)", "if:(err!=nil)", "break",
+     "continue", "assign:clientInputs:=make(conv,10)", "send:clientInputs",
+     "bidirectionalStreamer.ProcessClientStreamRequest",
+     "assign:outChan,err=bidirectionalStreamer.ProcessClientStreamRequest(r,path,clientInputs)",
+     "if:(err!=nil)", "continue", "assign:closing:=make(conv)", "assign:leaving:=make(conv)",
+     "go{", "defer:close:clientInputs", "defer:verifC15Point", "for:{", "ws.ReadMessage",
+     "assign:_,buf,err:=ws.ReadMessage()", "if:(err!=nil)", "close:closing", "return:",
+     "verifC15Point", "send:clientInputs", "recv:leaving", "return:", "}", "}", "for:{",
+     "recv:closing", "break", "recv:outChan", "assign:reply,ok:=<-outChan", "if:!ok",
      "websocket.FormatCloseMessage", "time.Now", "Now().Add", "ws.WriteControl", "verifC15Point",
-     "close:leaving", "time.Now", "Now().Add", "ws.SetWriteDeadline", "verifC15Point",
-     "close:leaving", "ws.WriteMessage", "verifC15Point", "close:leaving", "err.Error",
-     "websocket.FormatCloseMessage", "time.Now", "Now().Add", "ws.WriteControl"] := rfl
+     "close:leaving", "return:", "assign:tx+=len(reply)", "time.Now", "Now().Add",
+     "ws.SetWriteDeadline", "assign:err=ws.SetWriteDeadline(time.Now().Add((5*time.Minute)))",
+     "if:(err!=nil)", "verifC15Point", "close:leaving", "break", "ws.WriteMessage",
+     "assign:err=ws.WriteMessage(mt,reply)", "if:(err!=nil)", "verifC15Point", "close:leaving",
+     "break", "}", "}", "assign:errMessage:=\"\"", "if:(err!=nil)", "err.Error",
+     "assign:errMessage+=err.Error()", "websocket.FormatCloseMessage", "time.Now", "Now().Add",
+     "ws.WriteControl", "return:"] := rfl
 
 theorem c14_shape_client_Client_Send :
     Shapes.websocket_client_Client_Send =
